@@ -3,7 +3,7 @@
 import json, glob, os, re
 V = os.path.dirname(os.path.dirname(os.path.abspath(__file__)))
 rows = []
-for d in sorted(glob.glob(os.path.join(V, "seeded", "*"))):
+for d in sorted(glob.glob(os.path.join(V, "seeded", "C??-?"))):
     m = json.load(open(os.path.join(d, "meta.json")))
     esc = lambda s: s.replace("|", "/").replace("\n", " ")
     rows.append("| %s | %s | %s |" % (os.path.basename(d), esc(m["breaks"])[:160], esc(m["detected_by"])))
